@@ -534,6 +534,12 @@ theorem jsonl_rel_seek_partition (eofOk : Bool) (ws : Nat → Bool) (parse : Lis
 
 /-! ## non-vacuity -/
 
+/-- front-strip sets for the examples (the theorems hold for any; the regenerated tables of the
+    running code are `pyWs` / `pyWsT`): space and tab, and for text lines also NBSP -/
+def toyWs (c : Nat) : Bool := c == 32 || c == 9
+def toyWsT (c : Nat) : Bool := c == 32 || c == 9 || c == 160
+
+
 -- "a b<U+2028>c<CR><LF>": breaks of two kinds, ends with a break; ' 2','8' would be split by the old typo
 example : iterSplitlines [97, 32, 50, 56, 8232, 99, 13, 10] = [[97, 32, 50, 56], [99], []] := by decide
 example : ∀ c ∈ [97, 32, 50, 56, 8232, 99, 13, 10], isFS c = false := by decide
@@ -557,15 +563,15 @@ def toyParse (l : List Nat) : Except Unit Nat :=
   if l = [51] then .ok 3 else .error ()
 
 -- "\n3\n \nx\r\n3\n": blank lines, a corrupt line, CRLF; block size 5 (the former failure)
-example : jsonlForwardB pyWs toyParse true [10, 51, 10, 32, 10, 120, 13, 10, 51, 10] = ([3, 3], none) := by decide
-example : jsonlReverse pyWs toyParse true 5 [10, 51, 10, 32, 10, 120, 13, 10, 51, 10] = ([3, 3], none) := by decide
-example : (jsonlForwardB pyWs toyParse false [10, 51, 10, 32, 10, 51, 10]).2 = none := by decide
-example : (jsonlForwardB pyWs toyParse false [10, 51, 10, 120, 10, 51, 10]) = ([3], some ()) := by decide
+example : jsonlForwardB toyWs toyParse true [10, 51, 10, 32, 10, 120, 13, 10, 51, 10] = ([3, 3], none) := by decide
+example : jsonlReverse toyWs toyParse true 5 [10, 51, 10, 32, 10, 120, 13, 10, 51, 10] = ([3, 3], none) := by decide
+example : (jsonlForwardB toyWs toyParse false [10, 51, 10, 32, 10, 51, 10]).2 = none := by decide
+example : (jsonlForwardB toyWs toyParse false [10, 51, 10, 120, 10, 51, 10]) = ([3], some ()) := by decide
 
 -- the former defect C19-jsonl-break-dependent-decoding: a line with a NUL byte, b"\x001\n"
-example : lineNorm pyWs [0, 49, 10] = [0, 49] ∧ lineNorm pyWs [0, 49] = [0, 49] := by decide
-example : lineNorm pyWs [32, 9, 51, 13, 13, 10] = [51] := by decide
-example : ∀ c ∈ [32, 9, 32], pyWs c = true := by decide
+example : lineNorm toyWs [0, 49, 10] = [0, 49] ∧ lineNorm toyWs [0, 49] = [0, 49] := by decide
+example : lineNorm toyWs [32, 9, 51, 13, 13, 10] = [51] := by decide
+example : ∀ c ∈ [32, 9, 32], toyWs c = true := by decide
 -- read schedules: block size 3 from the end reads 1+3+3 bytes last, aligned reads 3+3+1
 example : revLoopS [10, 195, 169, 13, 10, 98, 10] (alignedRead 3) 7 7 [] = [[], [98], [195, 169], []] := by decide
 example : reverseIterLines [10, 195, 169, 13, 10, 98, 10] 3 = [[], [98], [195, 169], []] := by decide
@@ -590,15 +596,15 @@ example : strictUtf8 [237, 160, 128] = false ∧ validUtf8 [237, 160, 128] = tru
 
 -- rel_seek: "3\n3\r\nx\n3" from offset 2 (inside the second record): aligned ON the CR at offset 3
 example : alignToNewlineE false [51, 10, 51, 13, 10, 120, 10, 51] 2 = some 3 := by decide
-example : jsonlRelSeekE false pyWs toyParse true false 4096 [51, 10, 51, 13, 10, 120, 10, 51] 2 = some ([3], none) := by decide
-example : jsonlRelSeekE false pyWs toyParse true true 4096 [51, 10, 51, 13, 10, 120, 10, 51] 2 = some ([3, 3], none) := by decide
-example : (jsonlForwardT pyWs toyParse true [51, 10, 51, 13, 10, 120, 10, 51]).1 = [3, 3, 3] := by decide
+example : jsonlRelSeekE false toyWs toyParse true false 4096 [51, 10, 51, 13, 10, 120, 10, 51] 2 = some ([3], none) := by decide
+example : jsonlRelSeekE false toyWs toyParse true true 4096 [51, 10, 51, 13, 10, 120, 10, 51] 2 = some ([3, 3], none) := by decide
+example : (jsonlForwardT toyWs toyParse true [51, 10, 51, 13, 10, 120, 10, 51]).1 = [3, 3, 3] := by decide
 -- no line break after the target: the alignment loop of the code as it is does not end (outside the
 -- model); a code that stops at the end of the file leaves reverse mode everything, forward mode nothing
 example : alignToNewlineE false [51, 10, 51] 2 = none := by decide
 example : alignToNewlineE true [51, 10, 51] 2 = some 3 := by decide
-example : jsonlRelSeekE true pyWs toyParse true true 4096 [51, 10, 51] 2 = some ([3, 3], none) ∧
-    jsonlRelSeekE true pyWs toyParse true false 4096 [51, 10, 51] 2 = some ([], none) := by decide
+example : jsonlRelSeekE true toyWs toyParse true true 4096 [51, 10, 51] 2 = some ([3, 3], none) ∧
+    jsonlRelSeekE true toyWs toyParse true false 4096 [51, 10, 51] 2 = some ([], none) := by decide
 
 -- "a<U+2028>é\nb" as UTF-8, read 2 bytes at a time: the text lines are ["a<U+2028>é", "b"]
 example : decodeG false [97, 226, 128, 168, 195, 169, 10, 98] = some [97, 8232, 233, 10, 98] := by decide
@@ -606,18 +612,18 @@ example : reverseIterLinesText [97, 226, 128, 168, 195, 169, 10, 98] 2 = [some [
 example : decodeG false [237, 160, 128] = none ∧ decodeG true [237, 160, 128] = some [55296] := by decide
 
 -- strict mode resumed after the error on "x": forward 3, error, 3 — reverse the same backwards
-example : (outcomes pyWs toyParse false (fileLinesB [51, 10, 120, 10, 51, 10])).map Except.toOption
+example : (outcomes toyWs toyParse false (fileLinesB [51, 10, 120, 10, 51, 10])).map Except.toOption
     = [some 3, none, some 3] := by decide
-example : (outcomes pyWs toyParse false (reverseIterLines [51, 10, 120, 10, 51, 10] 2)).map Except.toOption
+example : (outcomes toyWs toyParse false (reverseIterLines [51, 10, 120, 10, 51, 10] 2)).map Except.toOption
     = [some 3, none, some 3] := by decide
-example : untilError (outcomes pyWs toyParse false (fileLinesB [51, 10, 120, 10, 51, 10])) = ([3], some ()) := by decide
+example : untilError (outcomes toyWs toyParse false (fileLinesB [51, 10, 120, 10, 51, 10])) = ([3], some ()) := by decide
 
 -- cur_byte_pos on "3\n\nx\r\n3\n  3": after the records: offsets 2, 8 and 11 (= size)
-example : jsonlForwardPosB pyWs toyParse true [51, 10, 10, 120, 13, 10, 51, 10, 32, 32, 51] = [2, 8, 11] := by decide
+example : jsonlForwardPosB toyWs toyParse true [51, 10, 10, 120, 13, 10, 51, 10, 32, 32, 51] = [2, 8, 11] := by decide
 
 -- text mode: "<NBSP>3\n3" (c2 a0 33 0a 33): str.lstrip removes the NBSP, bytes.lstrip would not
-example : jsonlReverseText pyWsT toyParse true 2 [194, 160, 51, 10, 51] = ([3, 3], none) := by decide
-example : (jsonlReverse pyWs toyParse true 2 [194, 160, 51, 10, 51]).1 = [3] := by decide
+example : jsonlReverseText toyWsT toyParse true 2 [194, 160, 51, 10, 51] = ([3, 3], none) := by decide
+example : (jsonlReverse toyWs toyParse true 2 [194, 160, 51, 10, 51]).1 = [3] := by decide
 
 -- "a\n\nb\n": the lines [b"", b"b", b"", b"a"] reversed and joined by LF give the content back
 example : joinWith [10] (reverseIterLines [97, 10, 10, 98, 10] 2).reverse = [97, 10, 10, 98, 10] := by decide
